@@ -307,6 +307,12 @@ func (b *Builder) IfFeature(o interface{}, expression string) *IfFeature {
 		b.setErr(fmt.Errorf("%T does not support if-feature", o))
 	} else {
 		h.addIfFeature(&i)
+		// a malformed expression is an error of the module, also where no feature
+		// configuration ever gets to evaluate it (below a node that is left out, in a
+		// grouping nobody uses); whether it is malformed does not depend on the features
+		if _, err := i.Evaluate(nil); err != nil {
+			b.setErr(err)
+		}
 	}
 	return &i
 }
